@@ -35,6 +35,9 @@ enum Op {
     Burn { from: usize, a: i128, id: u32 },
     Transfer { from: usize, to: usize, a: i128, id: u32 },
     Delegate { who: usize, to: usize },
+    /// allowance / approval path: `from` approves `sp` for exactly this amount (token) first
+    TransferFrom { sp: usize, from: usize, to: usize, a: i128, id: u32 },
+    BurnFrom { sp: usize, from: usize, a: i128, id: u32 },
 }
 
 struct Model {
@@ -110,8 +113,18 @@ fn history(cfg: &Cfg, rep: &mut Report, kind: Kind, h: u64, ledgers: usize) {
                 Op::Mint { to: a, a: if kind == Kind::Nft { 1 } else { amt(&mut rng).max(1) } }
             } else if k < 40 && kind != Kind::ExFungible {
                 Op::Burn { from: a, a: if kind == Kind::Nft { 1 } else { amt(&mut rng) }, id }
-            } else if k < 70 {
+            } else if k < 62 {
                 Op::Transfer { from: a, to: b, a: if kind == Kind::Nft { 1 } else { amt(&mut rng) }, id }
+            } else if k < 72 {
+                // spender is the recipient, the holder, or a third party
+                let sp = match rng.idx(4) {
+                    0 => b,
+                    1 => a,
+                    _ => rng.idx(n),
+                };
+                Op::TransferFrom { sp, from: a, to: b, a: if kind == Kind::Nft { 1 } else { amt(&mut rng) }, id }
+            } else if k < 76 && kind != Kind::ExFungible {
+                Op::BurnFrom { sp: rng.idx(n), from: a, a: if kind == Kind::Nft { 1 } else { amt(&mut rng) }, id }
             } else {
                 Op::Delegate { who: a, to: b }
             };
@@ -123,11 +136,25 @@ fn history(cfg: &Cfg, rep: &mut Report, kind: Kind, h: u64, ledgers: usize) {
                 (Op::Transfer { from, to, id, .. }, Kind::Nft) => ("transfer", args!(e, u[*from], u[*to], *id)),
                 (Op::Transfer { from, to, a, .. }, _) => ("transfer", args!(e, u[*from], u[*to], *a)),
                 (Op::Delegate { who, to }, _) => ("delegate", args!(e, u[*who], u[*to])),
+                (Op::TransferFrom { sp, from, to, id, .. }, Kind::Nft) => ("transfer_from", args!(e, u[*sp], u[*from], u[*to], *id)),
+                (Op::TransferFrom { sp, from, to, a, .. }, _) => ("transfer_from", args!(e, u[*sp], u[*from], u[*to], *a)),
+                (Op::BurnFrom { sp, from, id, .. }, Kind::Nft) => ("burn_from", args!(e, u[*sp], u[*from], *id)),
+                (Op::BurnFrom { sp, from, a, .. }, _) => ("burn_from", args!(e, u[*sp], u[*from], *a)),
             };
+            // the approval the spender path needs (its own rules are C02 / C11's subject)
+            if let Op::TransferFrom { sp, from, a, id, .. } | Op::BurnFrom { sp, from, a, id } = &op {
+                e.mock_all_auths();
+                let live = cur + 100;
+                let _r: Result<Val, Fail> = if kind == Kind::Nft {
+                    invoke(e, &c, "approve", args!(e, u[*from], u[*sp], *id, live))
+                } else {
+                    invoke(e, &c, "approve", args!(e, u[*from], u[*sp], *a, live))
+                };
+            }
             let want_ok = match (&op, kind) {
                 (Op::Mint { .. }, _) => true,
-                (Op::Burn { from, id, .. }, Kind::Nft) | (Op::Transfer { from, id, .. }, Kind::Nft) => m.nft_owner.get(id) == Some(from),
-                (Op::Burn { from, a, .. }, _) | (Op::Transfer { from, a, .. }, _) => *a >= 0 && m.units[*from] as i128 >= *a,
+                (Op::Burn { from, id, .. }, Kind::Nft) | (Op::Transfer { from, id, .. }, Kind::Nft) | (Op::TransferFrom { from, id, .. }, Kind::Nft) | (Op::BurnFrom { from, id, .. }, Kind::Nft) => m.nft_owner.get(id) == Some(from),
+                (Op::Burn { from, a, .. }, _) | (Op::Transfer { from, a, .. }, _) | (Op::TransferFrom { from, a, .. }, _) | (Op::BurnFrom { from, a, .. }, _) => *a >= 0 && m.units[*from] as i128 >= *a,
                 (Op::Delegate { who, to }, _) => m.delegate[*who] != Some(*to),
             };
             e.mock_all_auths();
@@ -155,8 +182,14 @@ fn history(cfg: &Cfg, rep: &mut Report, kind: Kind, h: u64, ledgers: usize) {
                     (true, false, _) | (false, true, _) => "one-delegating",
                     _ => "none-delegating",
                 },
+                Op::TransferFrom { sp, from, to, .. } => match (sp == to, sp == from, from == to) {
+                    (_, _, true) => "self-transfer",
+                    (true, _, _) => "spender-is-recipient",
+                    (_, true, _) => "spender-is-holder",
+                    _ => "third-party-spender",
+                },
                 Op::Mint { to, .. } => if m.delegate[*to].is_some() { "delegating" } else { "not-delegating" },
-                Op::Burn { from, .. } => if m.delegate[*from].is_some() { "delegating" } else { "not-delegating" },
+                Op::Burn { from, .. } | Op::BurnFrom { from, .. } => if m.delegate[*from].is_some() { "delegating" } else { "not-delegating" },
             };
             rep.case(format!("{}/{f}/{shape}/ops-in-ledger={}/{}", kind.name(), oi.min(3), tag(&got)));
             rep.check("ref", got.is_ok() == want_ok, &format!("C13/ref/{}/{f}/outcome", kind.name()), || {
@@ -170,17 +203,17 @@ fn history(cfg: &Cfg, rep: &mut Report, kind: Kind, h: u64, ledgers: usize) {
                         m.units[*to] += 1;
                     }
                     (Op::Mint { to, a }, _) => m.units[*to] += *a as u128,
-                    (Op::Burn { from, id, .. }, Kind::Nft) => {
+                    (Op::Burn { from, id, .. }, Kind::Nft) | (Op::BurnFrom { from, id, .. }, Kind::Nft) => {
                         m.nft_owner.remove(id);
                         m.units[*from] -= 1;
                     }
-                    (Op::Burn { from, a, .. }, _) => m.units[*from] -= *a as u128,
-                    (Op::Transfer { from, to, id, .. }, Kind::Nft) => {
+                    (Op::Burn { from, a, .. }, _) | (Op::BurnFrom { from, a, .. }, _) => m.units[*from] -= *a as u128,
+                    (Op::Transfer { from, to, id, .. }, Kind::Nft) | (Op::TransferFrom { from, to, id, .. }, Kind::Nft) => {
                         m.nft_owner.insert(*id, *to);
                         m.units[*from] -= 1;
                         m.units[*to] += 1;
                     }
-                    (Op::Transfer { from, to, a, .. }, _) => {
+                    (Op::Transfer { from, to, a, .. }, _) | (Op::TransferFrom { from, to, a, .. }, _) => {
                         m.units[*from] -= *a as u128;
                         m.units[*to] += *a as u128;
                     }
@@ -323,7 +356,7 @@ fn history(cfg: &Cfg, rep: &mut Report, kind: Kind, h: u64, ledgers: usize) {
 }
 
 pub fn run(cfg: &Cfg, rep: &mut Report) {
-    rep.rule = "Seeded histories on the fungible-votes example, a votes wrapper with burn, and an NFT-votes wrapper: 1-6 operations (mint/burn/transfer incl. self and full balance/delegate/re-delegate/self-delegate by 4 accounts) per ledger, gaps of {1,2,3,10,1000,10^6} ledgers; at every ledger close every account and the total are queried at {0, now-1, each recent checkpoint ledger -1/+0/+1, 8 random past ledgers}; all answers are re-queried at the end. Distinct case = (token, op, delegation shape, position of the op inside its ledger, outcome) and (token, query position {before first, at checkpoint, between, after last}).".into();
+    rep.rule = "Seeded histories on the fungible-votes example, a votes wrapper with burn, and an NFT-votes wrapper: 1-6 operations (mint/burn/transfer incl. self and full balance/transfer_from and burn_from with the spender being the recipient, the holder or a third party/delegate/re-delegate/self-delegate by 4 accounts) per ledger, gaps of {1,2,3,10,1000,10^6} ledgers; at every ledger close every account and the total are queried at {0, now-1, each recent checkpoint ledger -1/+0/+1, 8 random past ledgers}; all answers are re-queried at the end. Distinct case = (token, op, delegation shape, position of the op inside its ledger, outcome) and (token, query position {before first, at checkpoint, between, after last}).".into();
     let nh = cfg.pick(4u64, 40);
     let ledgers = cfg.pick(40usize, 90);
     for (ki, kind) in [Kind::Fungible, Kind::ExFungible, Kind::Nft].iter().enumerate() {
